@@ -5,6 +5,10 @@
   model `EG.Model.Raw` (a literal transcription of core/src/pixelcolor/raw/{load_store,mod,to_bytes}.rs
   and src/iterator/raw.rs, tied to the code by the `raw.*` correspondence streams).
 
+  Second tie: EG/Props/C11/Generated.lean proves that the model's `bitPosition`, `load`, `store`, `rawNew`, `mask`,
+  `Iter.new/next/nth/sizeHint` EQUAL the definitions regenerated from the Rust text on every check
+  (EG/Generated/RawSrc.lean, tools/tr_rawsrc.py); GeneratedLaws.lean restates the headline below over those.
+
   Quantifiers: `bits` ranges over the seven raw types (`validBits bits`), `o` over both data orders,
   `buf` over byte buffers of ANY length (`BytesOk buf`: every element is a `u8`), `i`, `j`, `k` over
   ALL natural numbers, `v` over all values of the raw type (`v < 2^bits`, what `RawUx::new` produces).
